@@ -30,8 +30,7 @@
 (*                           64-bit integer (carry from word 12 into word   *)
 (*                           13; wraps modulo 2^64, never into the nonce).  *)
 (*                           The last block may be partial.                 *)
-(* TLC!TLCEval(v) = v; it only makes TLC evaluate an accumulator eagerly    *)
-(* instead of piling up one lazy thunk per iteration (stack depth).         *)
+(* TLC!TLCEval(v) = v; it only makes TLC evaluate a value eagerly, once.    *)
 (***************************************************************************)
 EXTENDS Words, TLC
 
@@ -82,10 +81,18 @@ ChachaInit(key, nonce, ctr) ==
 
 ChachaBlock(key, nonce, ctr, rounds) == WordsToLE(ChachaCoreW(rounds, ChachaInit(key, nonce, ctr)))
 
-RECURSIVE ChachaXorR(_,_,_,_,_,_)
-ChachaXorR(key, nonce, ctr, rounds, m, acc) ==
-  IF Len(m) = 0 THEN acc
-  ELSE ChachaXorR(key, nonce, WAddNat(ctr, 1), rounds, Drop(m, 64),
-                  TLCEval(acc \o XorBytes(Take(m, 64), ChachaBlock(key, nonce, ctr, rounds))))
-ChachaXor(key, nonce, ctr0, rounds, m) == ChachaXorR(key, nonce, ctr0, rounds, m, <<>>)
+\* Block b (b = 0, 1, ...) of the output is block b of m xor the keystream block number ctr0 + b mod 2^64
+\* (the last block of m may be short; XorBytes truncates the keystream).  The blocks are computed as the
+\* values of a function over the block indices and then concatenated: a recursion over the blocks would
+\* make TLC evaluate block b in a context of depth O(b) (identifier lookups walk it: quadratic time).
+\* Len(m) < 2^31 bytes, hence b < 2^25 fits WAddNat.
+RECURSIVE ChachaCat(_,_,_,_)
+ChachaCat(f, b, nb, acc) == IF b = nb THEN acc ELSE ChachaCat(f, b+1, nb, acc \o f[b])
+ChachaXor(key, nonce, ctr0, rounds, m) ==
+  LET L  == Len(m)
+      nb == (L + 63) \div 64
+      f  == TLCEval([b \in 0..(nb-1) |->
+                      XorBytes(SubSeq(m, 64*b + 1, IF 64*b + 64 < L THEN 64*b + 64 ELSE L),
+                               ChachaBlock(key, nonce, WAddNat(ctr0, b), rounds))])
+  IN ChachaCat(f, 0, nb, <<>>)
 =============================================================================
